@@ -61,10 +61,11 @@ def verify_keys(jobs, timeout_ms=20000, repo=None, procs=None):
     """jobs: list of (key, variant_idx)."""
     repo = repo or os.environ.get('VERIF_REPO', '/repo')
     work = [(k, v, timeout_ms, repo) for (k, v) in jobs]
-    procs = procs or min(16, max(1, len(work)))
+    procs = procs or min(int(os.environ.get('PYVC_PROCS', '14')), max(1, len(work)))
     if procs == 1 or len(work) == 1:
         return [verify_one(w) for w in work]
-    with mp.get_context('fork').Pool(procs) as pool:
+    # one fresh process per job: the verdict of a job must not depend on which jobs ran before it in the same worker
+    with mp.get_context('fork').Pool(procs, maxtasksperchild=1) as pool:
         return pool.map(verify_one, work, chunksize=1)
 
 
